@@ -140,7 +140,11 @@ def r13a(F):
 	# is_even and the peer handler
 	ie = F.func(W + 'Message::is_even')
 	gs = [Guard(ie, c) for c in comparisons(ie)]
-	oke = len(gs) == 1 and gs[0].op == 'Eq' and 'BitAnd1)' in (leaf_key(gs[0].a) + leaf_key(gs[0].b)).replace(' ', '') and 'type_id' in gs[0].text() and gs[0].nf[2] == 0
+	# the masked value is 0 or 1, so `== 0` and `!= 1` are the same predicate
+	oke = len(gs) == 1 and (gs[0].op, gs[0].nf[2]) in (('Eq', 0), ('Ne', 1)) and 'BitAnd1)' in (leaf_key(gs[0].a) + leaf_key(gs[0].b)).replace(' ', '') and 'type_id' in gs[0].text()
+	if oke:
+		# and the function returns that comparison (not its negation)
+		oke = any(s[1] == [0] and s[2][0] == 'use' and s[2][1][0] in ('c', 'm') and s[2][1][1] == [gs[0].dest] for bi, si, s in ie.stmts()) or gs[0].dest == 0
 	out.append(Result('13.a', oke, ('ok:' if oke else 'shape:') + 'is_even', 'Message::is_even() = (type_id() & 1) == 0 (%s)' % [g.text() for g in gs], len(gs), where=F.where(ie.name)))
 	ph = [k for k in F.fns if k.endswith('PeerManager::do_handle_message_without_peer_lock')]
 	if len(ph) != 1:
